@@ -356,6 +356,31 @@ def scribble(bits):
     bits @= (~bits)
 
 
+_FOREIGN = {}
+
+
+def foreign_class(cls):
+    """A DIFFERENT bitstruct class of the same total width: the fields of `cls` (same names, same types) in
+    reversed order.  `d @= f` / `d <<= f` with f of that class transfers the PACKED value
+    (bitstructs.py: a right-hand side of another class goes through from_bits(other.to_bits())), exactly like a
+    BitsN right-hand side; the fields of equal name sit at other bit positions, so a copy by field name gives
+    another packed value.  (Added after seeded change C06-E.)"""
+    if cls not in _FOREIGN:
+        from pymtl3.datatypes import mk_bitstruct
+        fields = list(cls.__bitstruct_fields__.items())
+        _FOREIGN[cls] = mk_bitstruct(cls.__name__ + "_Rev", dict(reversed(fields)))
+    return _FOREIGN[cls]
+
+
+def _rhs_of_bits(cls, a):
+    """the right-hand side of assignbits / nbassignbits: BitsN(b), or (via = 'foreign') a bitstruct of another
+    class holding the same packed value"""
+    src = mkbits(a["b"])
+    if a.get("via") == "foreign":
+        return foreign_class(cls).from_bits(src), src
+    return src, src
+
+
 def apply_action(objs, cls, a):
     """Execute one action record of BitStruct.tla on the real objects (dict name -> object)."""
     op, d = a["op"], a["d"]
@@ -368,15 +393,19 @@ def apply_action(objs, cls, a):
     elif op == "assign":
         objs[d] = operator.imatmul(objs[d], objs[a["s"]])
     elif op == "assignbits":
-        src = mkbits(a["b"])
-        objs[d] = operator.imatmul(objs[d], src)
+        rhs, src = _rhs_of_bits(cls, a)
+        objs[d] = operator.imatmul(objs[d], rhs)
         scribble(src)
+        if rhs is not src:
+            rhs @= foreign_class(cls).from_bits(src)       # the source object is overwritten afterwards
     elif op == "nbassign":
         objs[d] = operator.ilshift(objs[d], objs[a["s"]])
     elif op == "nbassignbits":
-        src = mkbits(a["b"])
-        objs[d] = operator.ilshift(objs[d], src)
+        rhs, src = _rhs_of_bits(cls, a)
+        objs[d] = operator.ilshift(objs[d], rhs)
         scribble(src)
+        if rhs is not src:
+            rhs @= foreign_class(cls).from_bits(src)
     elif op == "flip":
         objs[d]._flip()
     elif op == "clone":
